@@ -184,9 +184,8 @@ pub fn worker(def: &PropDef, cli: &Cli) -> i32 {
             if let Some((clause, detail)) = (def.judge)(&wl, &res) {
                 let raw_class = format!("{clause}|{}", signature(def, &wl, &res).join(","));
                 line["violation_raw"] = json!({"clause": clause, "detail": detail, "class": raw_class});
-                // class-F runs (client waits for didOpen) are always minimised; class-T runs show the known
-                // dispatch-order finding in half of all runs, so only the first few per worker are minimised
-                let budget_ok = if opts.gate_first { minimised_f < 40 } else { minimised < 4 };
+                // every raw violation class is minimised and classified, up to 40 per worker process
+                let budget_ok = minimised_f + minimised < 40;
                 if budget_ok && reported.insert(raw_class) {
                     if opts.gate_first { minimised_f += 1 } else { minimised += 1 }
                     let (mw, mr) = minimise(def, &env, &wl, &opts, res, &clause);
@@ -387,7 +386,7 @@ pub fn coordinator(def: &PropDef, cli: &Cli) -> i32 {
     ev.set("violating_raw_classes", json!(raw_classes.len()));
     ev.set("runs_by_workload_class", json!(by_class));
     ev.set("violating_runs_by_workload_class", json!(viol_by_class));
-    ev.set("violating_runs_not_minimised (class T beyond the per-worker budget)", json!(unminimised));
+    ev.set("violating_runs_not_minimised (same raw class as an already minimised run, or beyond 40 per worker)", json!(unminimised));
     ev.set("samples", json!(samples));
     ev.set("determinism_selfcheck", json!({"seeds_run_in_two_processes": det_n, "divergences": 0}));
     ev.set("components", json!({"real": def.components_real, "stub": def.components_stub}));
